@@ -367,7 +367,7 @@ void do_log(int producer, int opidx, const Op &op, bool fatal)
 
     if (fatal)
         sim::ev(E_FATAL_INVOKE, cid);
-    sim::ev(E_INVOKE, cid);
+    sim::ev(E_INVOKE, cid, sim::wall_now());
     sim::clock_reads_begin();
     if (C->logger && P.target != "bare") {
         QMessageLogger ml(file, line, func, cat);
@@ -398,7 +398,7 @@ void do_log(int producer, int opidx, const Op &op, bool fatal)
         C->oth->process(lmsg);
     }
     std::string rs = reads_string();
-    sim::ev(E_RETURN, cid, 0, 0, rs);
+    sim::ev(E_RETURN, cid, sim::wall_now(), 0, rs);
     poison_free(file, poison);
     poison_free(func, poison);
     poison_free(cat, poison);
